@@ -450,8 +450,15 @@ def run_trace(path, world, types, decodable, schedule, meta=None):
     drv = Driver(path, world, types, decodable)
     init = drv.observe(with_view=False)
     steps = []
+    setup_failed = None
     for op in schedule:
-        ev = drv.execute(op)
+        try:
+            ev = drv.execute(op)
+        except Exception as x:  # noqa: BLE001
+            # the library raised while the driver was BUILDING a valid block for this call (before the
+            # call that is judged): the history ends here, with a verdict instead of a machinery failure
+            setup_failed = f"{type(x).__name__}: {x}"[:200]
+            break
         steps.append(ev)
         # a structurally broken file (the trace spec stops judging there too) or a library call
         # that ran into the time / memory guard ends the history: nothing after it is meaningful
@@ -466,4 +473,6 @@ def run_trace(path, world, types, decodable, schedule, meta=None):
     tr = dict(types=list(types), decodable=[bool(x) for x in decodable], init=init, steps=steps)
     if meta:
         tr["meta"] = meta
+        if setup_failed:
+            tr["meta"]["setup_failed"] = setup_failed
     return tr
